@@ -34,12 +34,18 @@ def guiOp (toks : List String) : String :=
       if endm = "dpu" then some ⟨.ultimatum, 9⟩ else if endm = "bad" then some ⟨.badRdp, 10⟩
       else if endm = "badio" then some ⟨.badIo, 9⟩ else none
     let packed := endpack = "1" ∧ endPdu.isSome
-    let stream := bitmaps ++ (match endPdu with | some p => [p] | none => [])
+    -- `act≠0`: the thread itself runs the activation; its five server PDUs (`alens`), each in a record
+    -- of its own, come before everything else and are decoded without any event
+    let actPdus : List Pdu := match kv toks "act", kv toks "alens" with
+      | some a, some al => if a = "0" then [] else (natList al).map fun l => ⟨.quiet, l⟩
+      | _, _ => []
+    let stream := actPdus ++ bitmaps ++ (match endPdu with | some p => [p] | none => [])
     let dataTotal := (bitmaps.map (·.len)).foldl (· + ·) 0 + (if packed then (endPdu.map (·.len)).getD 0 else 0)
     let recs := (recordsOf (natList cuts) dataTotal).flatMap fun r => splitRecord (r / 16384 + 1) r
-    let fuel := 4 * (stream.length + recs.length) + 16
+    let fuel := 4 * (stream.length + recs.length + actPdus.length) + 16
     -- phase 1: all data records arrive, the thread runs until it blocks; the server is silent
-    let s1 := run true fuel (recs.foldl (fun s r => push r s) (init stream))
+    let s0 := run true fuel ((actPdus.map (·.len)).foldl (fun s r => push r s) (init stream))
+    let s1 := run true fuel (recs.foldl (fun s r => push r s) s0)
     -- phase 2: the end of the session
     let s2 := if ¬ packed then (match endPdu with | some p => push p.len s1 | none => s1) else s1
     let s2 := if endm = "notify" ∨ endm = "close" then close s2 else s2
@@ -51,7 +57,7 @@ def guiOp (toks : List String) : String :=
     let all := showIds ((List.range (plens.length - (quiet.filter (· < plens.length)).eraseDups.length)))
     let want := "silent=" ++ all ++ " final=" ++ all ++ " exit=yes in=" ++ (if kv toks "inputs" == some "1" then "ok" else "-")
     -- class of the recorded finding: some PDU ends inside a record
-    let bounds := (stream.take (if packed then stream.length else bitmaps.length)).foldl (fun (acc : List Nat × Nat) p => (acc.1 ++ [acc.2 + p.len], acc.2 + p.len)) ([], 0)
+    let bounds := ((stream.drop actPdus.length).take (if packed then stream.length else bitmaps.length)).foldl (fun (acc : List Nat × Nat) p => (acc.1 ++ [acc.2 + p.len], acc.2 + p.len)) ([], 0)
     let recEnds := recs.foldl (fun (acc : List Nat × Nat) r => (acc.1 ++ [acc.2 + r], acc.2 + r)) ([], 0)
     -- every PDU ends where a record ends (a PDU may span several records): nothing is ever left buffered
     let aligned := bounds.1.all fun b => recEnds.1.contains b
